@@ -67,6 +67,7 @@ Definition guard_list : list (field * guard) := [
   ("OutputStream.db", g1 "OutputStream.messagesMu");
   ("OutputStream.batch", g1 "OutputStream.messagesMu");
   ("OutputStream.lastseen", g1 "OutputStream.messagesMu");
+  ("OutputStream.closed", g1 "OutputStream.messagesMu");
   ("OutputStream.messagesCache", g1 "OutputStream.cacheMu");
   ("OutputStream.tmpdir", Immutable);
   ("OutputStream.dirname", Immutable);
